@@ -575,7 +575,24 @@ func (e *SpecEnv) call(x *ast.CallExpr) T {
 	case "traceN":
 		return e.cur.traceN
 	case "traceAt":
-		return Select(e.cur.trace, e.wantInt(x.Args[0]), SInt)
+		return Select(e.cur.trace, e.wantInt(x.Args[0]), "Ev")
+	case "sput":
+		// sput(store, key, val): functional update of a module store term (Array Bytes Bytes)
+		stt := e.tr(x.Args[0])
+		if stt.Sort != SStore {
+			sfail("sput: first argument must be a store, got %s", stt.Sort)
+		}
+		k, v := e.tr(x.Args[1]), e.tr(x.Args[2])
+		if v.Sort == "Nil" {
+			v = bnilT
+		}
+		return Store(stt, k, v)
+	case "sget":
+		stt := e.tr(x.Args[0])
+		if stt.Sort != SStore {
+			sfail("sget: first argument must be a store, got %s", stt.Sort)
+		}
+		return Select(stt, e.tr(x.Args[1]), SBytes)
 	case "str":
 		lit := x.Args[0].(*ast.BasicLit)
 		s, _ := strconv.Unquote(lit.Value)
